@@ -573,7 +573,8 @@ fn main() {
 			if bals.len() == 2 && pending == 0 && bals[0] + bals[1] != chan_value { rec.oracle_fail(format!("scenario {}: settled balances {} + {} != channel value {}", sc, bals[0], bals[1], chan_value)); }
 		}
 
-		if with_fee { *rec.classes.entry("scenario:fee-updates(impl-oracles-only)".into()).or_insert(0) += 1; let nf = net.trace.iter().filter(|o| matches!(o, Obs::Msg { kind: "fee", .. })).count() as u64; *rec.classes.entry("msg:update_fee".into()).or_insert(0) += nf; continue; }
+		// fee scenarios are compared against the `chan` model like the others (update_fee is modelled); the mongate model ignores fees
+		if with_fee { *rec.classes.entry("scenario:fee-updates".into()).or_insert(0) += 1; let nf = net.trace.iter().filter(|o| matches!(o, Obs::Msg { kind: "fee", .. })).count() as u64; *rec.classes.entry("msg:update_fee".into()).or_insert(0) += nf; }
 		// ---- op lines ----------------------------------------------------------------------------
 		if args.model == "mongate" {
 			rec.directive(&format!("# scenario {}", sc));
@@ -591,7 +592,8 @@ fn main() {
 			let dets = net.nodes[0].node.list_channels();
 			if dets.is_empty() { rec.discarded += 1; std::mem::forget(net); continue; } // channel gone (reported by the oracles above)
 			let det = &dets[0];
-			let feerate = det.feerate_sat_per_1000_weight.unwrap_or(253);
+			// the feerate the channel was OPENED with (fee scenarios change it later: the test estimator starts at 253)
+			let feerate = if with_fee { 253 } else { det.feerate_sat_per_1000_weight.unwrap_or(253) };
 			let ty = { let t = det.channel_type.as_ref().unwrap(); if t.supports_anchor_zero_fee_commitments() { "z" } else if t.supports_anchors_zero_fee_htlc_tx() { "a" } else { "l" } };
 			rec.directive(&format!("init {} {} {} {} {} {}", first[0], first[1], feerate, 354, ty, if det.is_outbound { "a" } else { "b" }));
 			let tr = &net.trace;
@@ -604,12 +606,14 @@ fn main() {
 				if let Obs::Update { node, kinds, cp_commit: Some(cc), .. } = &tr[k_upd] {
 					if !kinds.iter().any(|x| x.starts_with("CounterpartyCommitment")) { return; }
 					// the batch released with the next commitment_signed of this node
-					let mut adds = vec![]; let mut fu = vec![]; let mut fa = vec![];
+					let mut adds = vec![]; let mut fu = vec![]; let mut fa = vec![]; let mut fee: Option<String> = None;
 					for o2 in &tr[k_upd + 1..] {
-						if let Obs::Msg { from, kind, htlc_id, amt, chan: 0, .. } = o2 { if from == node {
-							match *kind { "add" => adds.push(amt.to_string()), "fulfill" => fu.push(htlc_id.to_string()), "fail" | "malformed" => fa.push(htlc_id.to_string()), "cs" => break, _ => {} }
+						if let Obs::Msg { from, kind, htlc_id, amt, chan: 0, detail, .. } = o2 { if from == node {
+							match *kind { "add" => adds.push(amt.to_string()), "fulfill" => fu.push(htlc_id.to_string()), "fail" | "malformed" => fa.push(htlc_id.to_string()), "fee" => { fee = detail.split("feerate=").nth(1).map(|x| x.split_whitespace().next().unwrap_or("").to_string()); }, "cs" => break, _ => {} }
 						} }
 					}
+					// the funder decided on a new feerate: its update_fee leaves with this commitment
+					if let Some(f) = &fee { rec.case(&format!("fee {} {}", nm(*node), f), "ok", "fee", true); }
 					let j = |v: &Vec<String>| if v.is_empty() { "-".to_string() } else { v.join(",") };
 					let mut nd: Vec<String> = { let mut v: Vec<(bool, u64)> = cc.3.clone(); v.sort(); v.iter().map(|(o, a)| format!("{}{}", if *o { "o" } else { "i" }, a)).collect() };
 					if nd.is_empty() { nd.push("-".into()); }
@@ -627,7 +631,7 @@ fn main() {
 					},
 					Obs::Msg { from, kind: "cs", chan: 0, .. } => rec.case(&format!("release {}", nm(*from)), "ok", "release", true),
 					Obs::Msg { from, kind: "raa", chan: 0, .. } => rec.case(&format!("raa {}", nm(*from)), "ok", "raa", true),
-					Obs::Delivered { to, kind, chan: 0, errors, .. } if ["add", "fulfill", "fail", "malformed", "cs", "raa"].contains(kind) => {
+					Obs::Delivered { to, kind, chan: 0, errors, .. } if ["add", "fulfill", "fail", "malformed", "cs", "raa", "fee"].contains(kind) => {
 						let k2 = if *kind == "malformed" { "fail" } else { kind };
 						rec.case(&format!("recv {}", nm(*to)), &format!("ok {} {}", k2, if *errors == 0 { "agree" } else { "DISAGREE" }), &format!("recv:{}", k2), true);
 					},
